@@ -5,7 +5,7 @@ import ast
 from typing import Any, Dict, List, Optional
 
 from . import terms as T
-from .values import (DefaultDict, ClassRef, Each, EnumRef, ExtMod, Frame, FuncRef, GroupBy, Obj, PyTuple, Ser, to_term)
+from .values import (Columns, DefaultDict, ClassRef, Each, EnumRef, ExtMod, Frame, FuncRef, GroupBy, Obj, PyTuple, Ser, to_term)
 
 _CMP_METH = {"lt": "<", "le": "<=", "gt": ">", "ge": ">=", "eq": "==", "ne": "!="}
 REDUCTIONS = {"sum", "min", "max", "mean", "std", "count", "median", "nunique", "idxmax", "idxmin", "first", "last", "any", "all", "var", "prod", "size"}
@@ -197,18 +197,20 @@ class SeriesOps:
                 for c, fn in spec.items():
                     if isinstance(fn, list):
                         for one in fn:
-                            cols[(c, one)] = T.agg(str(one), f.col(c), ctx, keyterms)
+                            cols[f"{c}\x1f{one}"] = T.agg(str(one), f.col(c), ctx, keyterms)
                     else:
                         cols[c] = T.agg(str(fn) if isinstance(fn, str) else T.show(to_term(fn)), f.col(c), ctx, keyterms)
                 return mk(cols)
             fns = spec if isinstance(spec, list) else [spec]
+            if sel is None and f.colnames() is not None:
+                sel = [c for c in f.colnames() if c not in g.keys]
             if isinstance(sel, str):
                 return mk({str(fn): T.agg(str(fn), f.col(sel), ctx, keyterms) for fn in fns})
             if isinstance(sel, list):
                 cols = {}
                 for c in sel:
                     for fn in fns:
-                        cols[(c, fn) if len(fns) > 1 or isinstance(spec, list) else c] = T.agg(str(fn), f.col(c), ctx, keyterms)
+                        cols[f"{c}\x1f{fn}" if len(fns) > 1 or isinstance(spec, list) else c] = T.agg(str(fn), f.col(c), ctx, keyterms)
                 return mk(cols)
             self.log("unmodelled", node, what="groupby.agg without column selection")
             return Frame(("gbagg-opaque", base, to_term(spec)))
@@ -298,6 +300,10 @@ class SeriesOps:
             if name == "union" and pos and isinstance(pos[0], (set, list)):
                 return set(obj) | set(pos[0])
         if isinstance(obj, str):
+            if name == "join" and pos and isinstance(pos[0], (PyTuple, list)):
+                items = pos[0].items if isinstance(pos[0], PyTuple) else pos[0]
+                if all(isinstance(x, str) for x in items):
+                    return obj.join(items)
             try:
                 if all(isinstance(p, (str, int)) for p in pos):
                     if name in ("startswith", "endswith", "lower", "upper", "strip", "split", "replace", "find", "rstrip", "lstrip", "format", "join", "isdigit"):
@@ -328,7 +334,8 @@ class SeriesOps:
         if name == "pd.Series":
             if isinstance(a0, Ser):
                 return a0
-            return Ser(("series", to_term(a0 if pos else kw.get("data"))), ("series", self.I.new_id()), None)
+            st = ("series", to_term(a0 if pos else kw.get("data")))
+            return Ser(st, (("series", self.I.new_id()), T.TRUE, None), None)
         if name == "pd.to_numeric":
             if isinstance(a0, Ser):
                 self.log("identity-cast", node, what="to_numeric", kw={k: to_term(v) for k, v in kw.items()})
@@ -506,6 +513,10 @@ class SeriesOps:
         if fn == "abs":
             return ("abs", self.M.as_ser_term(a0))
         if fn == "isinstance":
+            if isinstance(a0, Columns) and "MultiIndex" in ast.unparse(node.args[1]):
+                n = a0.names()
+                if n is not None:
+                    return any("\x1f" in str(c) for c in n)
             if isinstance(a0, Frame):
                 return T.C("DataFrame" in ast.unparse(node.args[1]))
             if isinstance(a0, (list, dict, str, int, float)) and not isinstance(a0, bool):
